@@ -163,7 +163,12 @@ def scn_sched(d: Draw, prof: dict, *, selections: float = 0.0, history: float = 
         ops.append(dict(op="exrun", ex="e0", args=draw_args(d, dg)))
     else:
         ops.append(dict(op="call", inst="E:main", args=draw_args(d, dg)))
-    return base_scn(spec, ops, profile_all=profile_all)
+    scn = base_scn(spec, ops, profile_all=profile_all)
+    if d.bool(0.15):
+        # some node functions take virtual time (seconds): bounded waits inside the code under test expire while they run
+        fnames = sorted(spec["funcs"])
+        scn["slow"] = {f: d.pick([0.3, 1.5, 4.0]) for f in d.sample(fnames, d.int(1, min(2, len(fnames))))}
+    return scn
 
 
 P_C02 = gen.profile(**{**gen.SCHED, "swarm": ("resources", "p_dep", "max_args", "p_seq", "p_prio"), "p_flag": 0.25, "w_nested": 1.2,
